@@ -8,7 +8,7 @@ from pathlib import Path
 
 from vf import chains
 from vf.core import SECTOR, BytesModel, Layer, Model, as_handle, rng_for
-from vf.diskcheck import compare_reads, continuation_reads, gen_requests, mismatch_detail
+from vf.diskcheck import compare_reads, continuation_reads, fault_retry_reads, gen_requests, mismatch_detail
 from vf.monitors import call
 
 ID = "C07"
@@ -142,6 +142,7 @@ def run(case: dict, ctx) -> dict:
             reqs.append((max(0, h_ + rng.randrange(-70000, (1 << 20))), rng.randrange(1, 150000)))
     cnt["vhdx_beyond_first_chunk_cases"] = int(bool(hot))
     continuation_reads(s, model, reqs, rng, res, MECH)
+    fault_retry_reads(s, model, reqs, rng, res, MECH)
     compare_reads(s, model, reqs, res, MECH, byte_cap=(24 << 20))
     _layer_hits(model, reqs, res)
     if op.read_sectors is not None and not res["viol"]:
